@@ -178,6 +178,26 @@ func runC13(c *Ctx) {
 		rep.Count("derived_key_all_zero_cases", int64(len(hits)))
 	}
 
+	// related long-term and ephemeral keys: d = x-bar(R) * r mod n makes P = [x-bar]R, so the other party's P + [x-bar]R
+	// adds a point to itself (and d = -x-bar*r makes it add a point to its negative: the standard's "V is infinite" case
+	// must then be an error on that side)
+	{
+		rr := c.Rng("related")
+		for i := 0; i < c.Q(4, 60); i++ {
+			rb := mkKey("eph", new(big.Int).Add(new(big.Int).SetBytes(rr.Bytes(31)), big.NewInt(1)))
+			xb := ref.XBar(rb.x)
+			dB := new(big.Int).Mul(xb, rb.d)
+			dB.Mod(dB, ref.N)
+			if dB.Sign() == 0 || dB.Cmp(new(big.Int).Sub(ref.N, big.NewInt(1))) >= 0 {
+				continue
+			}
+			b := mkKey("d=xbar(R)*r", dB)
+			a, ra := keys[i%len(keys)], keys[(i+3)%len(keys)]
+			runCase(kxCase{"kx/peer-long-term-key-equals-xbar-times-ephemeral(P+[xbar]R doubles)", a, b, ra, rb, []byte("alice"), []byte("bob"), 16 + i})
+			runCase(kxCase{"kx/own-long-term-key-equals-xbar-times-ephemeral", b, a, rb, ra, []byte("alice"), []byte("bob"), 16 + i})
+		}
+	}
+
 	// one-sided exchanges with a *constructed* peer ephemeral point (no scalar known, none needed): x values at the edges
 	// of the x-bar computation — exactly 16 significant bytes with bit 127 set / clear, 15 and 17 bytes, 1 byte, the
 	// top of the field — each completed to a curve point by solving for y. Both roles, against the reference.
